@@ -194,6 +194,11 @@ def run_history(ctx, store, imp, cls, hist):
         w['exception'] = exc
         if op['op'] == 'import_illformed':
             ctx.count('import-illformed:refused' if exc else 'import-illformed:accepted')
+            if exc is not None and not canon.typed_equal(before.get(op['g']), after.get(op['g'])):
+                ctx.violation('C04/import_illformed-refused-but-target-changed', 'each graph holds exactly the nodes added to it: an import that is '
+                              'refused adds nothing to, and removes nothing from, the graph it was addressed to',
+                              dict(w, diff=canon.diff(before.get(op['g']), after.get(op['g']))))
+                return False
             if exc is None and op.get('field', 'NodeID') == 'NodeID':
                 # (the *_direct entry points do not inspect node ids; only the checking importers are driven with such text)
                 # a store holding a node without NodeID is outside the domain of the statement: the history ends here
